@@ -103,11 +103,17 @@ EXC_KINDS: Dict[str, Callable[[str], Exception]] = {
     # an ordinary failure that happened while the method was dealing with a protocol error it had caught itself: the
     # handled error is only the implicit context of the KeyError
     'handled_proto_ctx': lambda m: _raised_while_handling_protocol_error(m),
+    # the library's own exceptions that are NOT protocol errors (a gateway method that talks to an upstream through a
+    # pjrpc client and gets a mismatched id or a malformed reply): to the dispatcher an ordinary failure of the method
+    'lib_identity': lambda m: pjrpc.exceptions.IdentityError(m),
+    'lib_deser': lambda m: pjrpc.exceptions.DeserializationError(m),
+    'lib_base': lambda m: pjrpc.exceptions.BaseError(m),
 }
 EXC_CLASS_NAMES = ['ValueError', 'KeyError', 'TypeError', 'AssertionError', 'RuntimeError',
                    'ZzqSecretCustomError', 'IndexError', 'OSError', 'ZzqSecretBadReprError', 'TimeoutError',
                    'CancelledError', 'ConnectionResetError', 'ZeroDivisionError', 'NotImplementedError', 'AttributeError',
-                   'RecursionError', 'ExceptionGroup', 'UnicodeDecodeError', 'StopAsyncIteration']
+                   'RecursionError', 'ExceptionGroup', 'UnicodeDecodeError', 'StopAsyncIteration', 'IdentityError',
+                   'DeserializationError', 'BaseError']
 
 DATA_MODES = ('absent', 'null', 'value')
 
